@@ -368,8 +368,8 @@ impl FieldVisitor {
 //@@ subst `v.try_into().map_err(|_v0| de::Error::custom(__E1))` => `try_code(v)` rule=R16
 //@@ spec
     ensures
-        v == 0xa3 || v == 0xb3 ==> r == Ok::<Field, ErrS>(Field::Name),       // [C03.constructor.every-width-variant] [C05.constructor.every-width-variant] a descriptor is a symbol (sym8 / sym32) or a ulong (ulong / smallulong / ulong0), AMQP 1.0 part 1, 1.5: every one of these constructors selects this variant
-        v == 0x80 || v == 0x53 || v == 0x44 ==> r == Ok::<Field, ErrS>(Field::Code),       // [C03.constructor.every-width-variant] [C05.constructor.every-width-variant] a descriptor is a symbol (sym8 / sym32) or a ulong (ulong / smallulong / ulong0), AMQP 1.0 part 1, 1.5: every one of these constructors selects this variant
+        v == 0xa3 || v == 0xb3 ==> r == Ok::<Field, ErrS>(Field::Name),       // [C03.constructor.every-width-variant] [C05.constructor.every-width-variant] [C12.constructor.every-width-variant] a descriptor is a symbol (sym8 / sym32) or a ulong (ulong / smallulong / ulong0), AMQP 1.0 part 1, 1.5: every one of these constructors selects this variant
+        v == 0x80 || v == 0x53 || v == 0x44 ==> r == Ok::<Field, ErrS>(Field::Code),       // [C03.constructor.every-width-variant] [C05.constructor.every-width-variant] [C12.constructor.every-width-variant] a descriptor is a symbol (sym8 / sym32) or a ulong (ulong / smallulong / ulong0), AMQP 1.0 part 1, 1.5: every one of these constructors selects this variant
 //@@ end
 }
 } // mod descriptor
